@@ -210,6 +210,7 @@ class Engine:
         import pymoca.backends.casadi.api  # noqa: F401
 
         core.install_clock_seam()
+        core.install_lock_seam(procs.repo_root())
         fsim.install()
         util.silence_antlr()
         import logging
